@@ -71,7 +71,7 @@ impl FunctionMarkupPass {
                 // never refers to a label (or function) of the program
                 let name = With::new(LabelString::new("<return>"), info.clone());
                 let new_node =
-                    ParserNode::new_jump_link(inst, rd, name, prev_ret.node().token().clone());
+                    ParserNode::new_jump_link(inst, rd, name, found_ret.node().token().clone());
                 #[allow(unused_must_use)]
                 found_ret.set_node(new_node);
             }
